@@ -163,3 +163,100 @@ pub fn expr_uses(e: &Expression, u: &mut Vec<String>)
 		_ => (),
 	}
 }
+
+/// Program shape for the variable scoper model: like `program`, but every
+/// goto/label carries the resolution id the real label scoper assigned
+/// (taken from the tree after `scoper::analyze`), or is (P) when poisoned.
+pub fn vprogram(pre: &[Declaration], post: &[Declaration]) -> String
+{
+	let mut consts = Vec::new();
+	let mut fns = Vec::new();
+	for (d, q) in pre.iter().zip(post.iter())
+	{
+		match (d, q)
+		{
+			(Declaration::Constant { name, .. }, _) =>
+			{
+				consts.push(name.name.clone())
+			}
+			(
+				Declaration::Function { parameters, body: Ok(body), .. },
+				Declaration::Function { body: Ok(qbody), .. },
+			) =>
+			{
+				let params: Vec<String> = parameters
+					.iter()
+					.map(|p| match &p.name
+					{
+						Ok(n) => n.name.clone(),
+						Err(_) => "?".to_string(),
+					})
+					.collect();
+				let mut v: Vec<String> = body
+					.statements
+					.iter()
+					.zip(qbody.statements.iter())
+					.map(|(a, b)| vstmt(a, b))
+					.collect();
+				let mut u = Vec::new();
+				if let Some(rv) = &body.return_value
+				{
+					expr_uses(rv, &mut u);
+				}
+				v.push(format!("(R ({}))", u.join(" ")));
+				fns.push(format!("(F ({}) {})", params.join(" "), v.join(" ")));
+			}
+			_ => (),
+		}
+	}
+	format!("((C {}) {})", consts.join(" "), fns.join(" "))
+}
+
+fn vstmt(s: &Statement, q: &Statement) -> String
+{
+	match (s, q)
+	{
+		(Statement::Goto { .. }, Statement::Goto { label, .. }) =>
+		{
+			format!("(G {})", label.resolution_id)
+		}
+		(Statement::Label { .. }, Statement::Label { label, .. }) =>
+		{
+			format!("(L {})", label.resolution_id)
+		}
+		(Statement::Goto { .. }, _) | (Statement::Label { .. }, _) =>
+		{
+			"(P)".to_string()
+		}
+		(
+			Statement::If { condition, then_branch, else_branch, .. },
+			Statement::If { then_branch: qt, else_branch: qe, .. },
+		) =>
+		{
+			let mut u = Vec::new();
+			expr_uses(&condition.left, &mut u);
+			expr_uses(&condition.right, &mut u);
+			match (else_branch, qe)
+			{
+				(Some(e), Some(qe)) => format!(
+					"(I ({}) {} {})",
+					u.join(" "),
+					vstmt(then_branch, qt),
+					vstmt(&e.branch, &qe.branch)
+				),
+				_ => format!("(I ({}) {})", u.join(" "), vstmt(then_branch, qt)),
+			}
+		}
+		(Statement::Block(b), Statement::Block(qb)) =>
+		{
+			let v: Vec<String> = b
+				.statements
+				.iter()
+				.zip(qb.statements.iter())
+				.map(|(a, b)| vstmt(a, b))
+				.collect();
+			format!("(B {})", v.join(" "))
+		}
+		_ => stmt(s),
+	}
+}
